@@ -729,6 +729,9 @@ class Checker:
 				ctx.fail('corr', 'wire transfer: Lean toLegacy of the decoded schema differs from to_legacy_descriptor() before processing', case)
 				return
 			model_report = cats_common.ask_json(ctx.driver, 'expand ' + wire)
+			# the hypothesis of the theorems, decided by the model on the schema as it is after apply_attributes (same references)
+			if ctx.driver.ask('dbu ' + wire) != ('true' if ordered else 'false'):
+				ctx.fail('corr', f'DeclaredBeforeUse: model and harness disagree (harness says {ordered})', case)
 
 		implementation = run_implementation(models)
 		structs = [entry for entry in snap if entry['struct']]
@@ -887,6 +890,7 @@ def check_shipped(checker, ctx):
 		ctx.count(f'shipped:{name}:declared-before-use:{ordered}')
 		if not ordered:
 			ctx.notes.append(f'shipped schema set {name} is not in declared-before-use order')
+			ctx.fail('proof', f'instance hypothesis DeclaredBeforeUse does not hold for the shipped schema set {name}', {'label': f'shipped:{name}'})
 		checker.check_models(models, {'ordered': ordered}, {'label': f'shipped:{name}'})
 
 
